@@ -189,12 +189,17 @@ pub fn check(sc: &Scenario, out: &RunOutput) -> OracleResult {
     }
     res.probe("honest_id_clashes_not_judged", own_clash.len() as u64);
     res.probe("honest_connections_named_directly_not_judged", named_directly.len() as u64);
+    let mut content_failed: std::collections::BTreeSet<usize> = Default::default();
     let c01 = super::c01::check(sc, out);
     for mut v in c01.violations {
         // only streams of honest connections count (the attacker's own stream is its business)
         let honest = v.msg.strip_prefix("conn ").and_then(|s| s.split(' ').next()).and_then(|k| k.parse::<usize>().ok()).is_some_and(|k| sc.connects[k].node < n_real && !named_directly.contains(&k) && !own_clash.contains(&k));
         if !honest || direct {
             continue;
+        }
+        // (one failure, one report: the conversation clause below does not repeat it)
+        if let Some(k) = v.msg.strip_prefix("conn ").and_then(|s| s.split(' ').next()).and_then(|k| k.parse::<usize>().ok()) {
+            content_failed.insert(k);
         }
         v.property = P;
         v.tag = match v.tag {
@@ -208,7 +213,7 @@ pub fn check(sc: &Scenario, out: &RunOutput) -> OracleResult {
     let scripts_as_generated = sc.param("app_scripts_hash").is_none_or(|h| h == sc.app_scripts_hash());
     let mut honest_ok = 0u64;
     for (k, c) in sc.connects.iter().enumerate() {
-        if c.node >= n_real || direct || own_clash.contains(&k) || named_directly.contains(&k) || !scripts_as_generated {
+        if c.node >= n_real || direct || own_clash.contains(&k) || named_directly.contains(&k) || !scripts_as_generated || content_failed.contains(&k) {
             continue;
         }
         let n_conn = match c.side.w.first() {
